@@ -77,7 +77,15 @@ def site_checks(ck, sg, kind, x0, x, GeneratorSite):
     first = True
     for tkind, U in tensors:
         Uf = numpy.array([[float(v) for v in r] for r in U])
+        Uf0 = Uf.copy()
         gs = GeneratorSite(sg, xf, Uij=Uf)
+        if not numpy.array_equal(Uf, Uf0):
+            # the caller's array changed: a general-position site (every tensor is allowed there) built from the same
+            # array object must still store the tensor the caller provided
+            gs2 = GeneratorSite(sg, numpy.array([0.1234567, 0.2345678, 0.3456789]), Uij=Uf)
+            if not close(gs2.Uij, Uf0, 1e-12):
+                return ("GeneratorSite overwrote the caller's Uij array %r with %r; a general-position site constructed next from the same "
+                        "array stores %r instead of the (allowed) tensor provided" % (Uf0.tolist(), Uf.tolist(), gs2.Uij.tolist())), []
         Hidx = sorted(sc.op_indices(sg, gs.invariants))
         if Hidx != stab:
             return "site symmetry operations %r, exact stabiliser %r" % (Hidx, stab), []
@@ -254,7 +262,13 @@ def whole_structure_case(ck, sg, st, SymmetryConstraints, ExpandAsymmetricUnit):
         chosen.append(chosen[0])
         v = [ck.rng.randrange(-90, 91) / 1000.0 for _ in range(6)]
         coreU.append([[v[0] + 0.2, v[3], v[4]], [v[3], v[1] + 0.2, v[5]], [v[4], v[5], v[2] + 0.2]])
-    data = {"sites": [[str(strata.frac(p)) for p in st[c]["xyz"]] for c in chosen], "coreUijs": coreU,
+    shared = len(set(chosen)) == len(chosen) and len(chosen) > 1 and ck.rng.random() < 0.4
+    if shared:
+        # the caller hands ONE array object to all sites (most symmetric site first): every site must still get
+        # the allowed part of THAT tensor for its own site symmetry, and the caller's array must stay untouched
+        chosen.sort(key=lambda c: -st[c]["nstab"])
+        coreU = [coreU[0]] * len(chosen)
+    data = {"sites": [[str(strata.frac(p)) for p in st[c]["xyz"]] for c in chosen], "coreUijs": coreU, "shared_array": shared,
             "shuffle_seed": ck.rng.randrange(10 ** 9) if ck.rng.random() < 0.5 else None,
             "eps": None if ck.rng.random() < 0.6 else 1.0e-3, "noise_seed": ck.rng.randrange(10 ** 9)}
     try:
@@ -270,7 +284,19 @@ def whole_eval(sg, data, SymmetryConstraints, ExpandAsymmetricUnit):
     sites = [[Fraction(v) for v in s_] for s_ in data["sites"]]
     corepos = [numpy.array([float(v) for v in x0]) for x0 in sites]
     coreU = [numpy.array(u) for u in data["coreUijs"]]
+    if data.get("shared_array"):
+        coreU = [coreU[0]] * len(coreU)
     eau = ExpandAsymmetricUnit(sg, corepos, coreU)
+    for i, u in enumerate(coreU):
+        if not numpy.array_equal(u, numpy.array(data["coreUijs"][i])):
+            return "ExpandAsymmetricUnit modified the caller's tensor array of site %d: %r -> %r" % (i, data["coreUijs"][i], u.tolist())
+    for i in range(len(sites)):
+        # every listed site gets the allowed part of ITS input, whatever else is listed and however the arrays are shared
+        own = ExpandAsymmetricUnit(sg, [corepos[i].copy()], [numpy.array(data["coreUijs"][i])])
+        if len(own.expandedUijs[0]) != len(eau.expandedUijs[i]) or any(
+                not close(a, b, 1e-9) for a, b in zip(eau.expandedUijs[i], own.expandedUijs[0])):
+            return ("site %d: tensors %r differ from those obtained when the site is expanded alone with the same input tensor %r"
+                    % (i, numpy.array(eau.expandedUijs[i][0]).tolist(), numpy.array(own.expandedUijs[0][0]).tolist()))
     pos, Us, owner = [], [], []
     for i, (ps, us) in enumerate(zip(eau.expandedpos, eau.expandedUijs)):
         x0 = sites[i]
